@@ -269,7 +269,8 @@ def run(tier, replay=None):
         raise vlib.ToolError("vacuity guard: node kinds never exercised: %s" % missing)
 
     fresh_shrinks = 0
-    max_shrinks = 6 if tier == "quick" else 25
+    max_shrinks = 4 if tier == "quick" else 20
+    shrink_rounds = 12 if tier == "quick" else 25
     for name, ast, mm in failures:
         rec = fail_record(mm)
         key = prog_key(ast)
@@ -284,7 +285,7 @@ def run(tier, replay=None):
         mode = sorted(mm)[0]
         if fresh_shrinks < max_shrinks:
             fresh_shrinks += 1
-            small = jscore.shrink(ast, runner.still_fails(mode, budget), max_rounds=30, limit=250)
+            small = jscore.shrink(ast, runner.still_fails(mode, budget), max_rounds=shrink_rounds, limit=250)
         else:
             small = ast
         small = canonical(small)
